@@ -133,13 +133,21 @@ func vh_flush() {
 // ---- direct writer ----
 
 type vCtx struct {
-	done chan struct{}
-	err  error
+	done    chan struct{}
+	err     error
+	lateErr bool // the first Err() still answers nil (the context ends right after the early check)
+	asked   int
 }
 
 func (c *vCtx) Deadline() (time.Time, bool)       { return time.Time{}, false }
 func (c *vCtx) Done() <-chan struct{}             { return c.done }
-func (c *vCtx) Err() error                        { return c.err }
+func (c *vCtx) Err() error {
+	c.asked++
+	if c.lateErr && c.asked == 1 {
+		return nil
+	}
+	return c.err
+}
 func (c *vCtx) Value(key interface{}) interface{} { return nil }
 
 var _ context.Context = (*vCtx)(nil)
